@@ -58,13 +58,23 @@ prop("C11", level="proof",
 prop("C03", level="proof",
      level_text="Unbounded proof at the level of the reported PAIRS: the three searches return exactly the property's violating sets (both inclusions; in particular every "
                 "reported pair has its subject-side endpoint inside the subject's own set), the detector buckets are exactly the images of those sets in user order. "
-                "Message RECORDS (string view): _create_other_violating_dependencies_message produces exactly one record (quoted importer, verb, quoted importee) per pair of the "
-                "violating set and nothing else; _get_violating_rule_subjects_and_objects groups the missing-import pairs per subject with exactly its own objects. "
-                "The rendering of records into sorted, de-duplicated text lines is covered by a bounded stand-in that parses real messages and compares them with the reference violating set.",
-     level_note=_RULE_NOTE + " Bounded (not proved): rendering of records into message lines (message_generator.py).",
-     explanation="Search/detector postconditions are the violating sets; message text compared natively.",
+                "MESSAGES (string view, contracts/c_messages.py): every function of message_generator.py is under contract. Records: each forbidden-import bucket yields exactly one record "
+                "(quoted importer, verb, quoted importee) per pair and nothing else; each missing-import bucket yields, for every subject with a missing pair, a record whose subject text "
+                "names that subject and whose object text is a ', '-join of exactly the texts of the objects IT is missing, and no other record. Composition: the record list of "
+                "_create_violation_messages consists of records of the eight buckets in their roles (every record stems from some bucket, every entry of every bucket has its record); "
+                "a bucket contributes records iff it is non-empty (lemmas C03_*_bucket_reported_iff_nonempty, C03_records_iff_some_bucket_nonempty); "
+                "create_rule_violation_messages renders each record as 'subject verb object.', every line is such a rendering, every bucket entry has its line, no line occurs twice; "
+                "create_rule_violation_message / RuleMatcher._create_rule_violation_message return a newline-join of exactly those lines for the generator of the rule's direction. "
+                "The verb wording ('imports' / 'does not import' / 'is [not] imported by' / plural forms) is the documented table, against which the source's PREFIX_MAPPING is verified. "
+                "NOT modelled (bounded only): the ORDER of lines and of the objects within a line (sorted / list.sort) and multiplicities inside a joined text; "
+                "the bounded stand-in parses real messages and compares them with the reference violating set.",
+     level_note=_RULE_NOTE + " Message layer: sep.join over a list seen as a collection is the uninterpreted relation is_join(text, sep, elements) (order and multiplicities unmodelled); "
+                "Bounded (not proved): order of lines / objects.",
+     explanation="Search/detector postconditions are the violating sets; message records, lines and text under contract (which names in which role); order and wording compared natively.",
      roots=["Rule.assert_applies", "RuleViolationBaseDetector.get_rule_violation", "RuleViolationMessageGenerator._create_other_violating_dependencies_message",
-            "RuleViolationMessageGenerator._get_violating_rule_subjects_and_objects"], bounded=[_b("rules", "bounded_reports")], trusted_base=_TB)
+            "RuleViolationMessageGenerator._get_violating_rule_subjects_and_objects", "RuleViolationMessageBaseGenerator.create_rule_violation_message",
+            "RuleViolationMessageBaseGenerator.create_rule_violation_messages", "RuleViolationMessageBaseGenerator._create_violation_messages",
+            "RuleMatcher._create_rule_violation_message@str", "C03_records_iff_some_bucket_nonempty"], bounded=[_b("rules", "bounded_reports")], trusted_base=_TB)
 prop("C13", level="proof",
      level_text="Unbounded proof for module rules: Rule.assert_applies raises ImproperlyConfigured / RuleInconsistency / ImpossibleMatch / NetworkXError exactly in the "
                 "incomplete, contradictory, unmatched-regex and unknown-name cases (exact raises-iff contracts down to the graph searches), so none of them yields a verdict; "
